@@ -20,7 +20,7 @@ from .hmcmass import momentum_obligations
 
 FLOORS = {"accept-form": 5, "accept-orientation": 5, "accept-shortcut": 4, "temper": 8,
           "new-old-binding": 2, "proposal-symmetric": 4, "stretch": 3, "hmc-fresh-momentum": 1,
-          "momentum-samples-kinetic": 3, "reloaded-temperature": 1, "accept-paths": 5}
+          "momentum-samples-kinetic": 3, "reloaded-temperature": 1, "accept-paths": 5, "proposal-inputs-current": 6}
 
 OPAQUE = {"inv_temp", "n_parameters", "n_walkers", "posterior", "rng", "mass", "ES", "params",
           "directions", "max_attempts", "steps", "bounds", "process_proposal", "walker_positions",
@@ -122,6 +122,14 @@ def run(prog, tier):
     anf.reset()
     obs, info = [], []
     obs.extend(shared)
+
+    # proposal and accept test of one attempt are computed from ONE generation of the sampler's state (step size, widths, mass):
+    # nothing computed before a retry / sweep loop from state the loop adapts is handed on inside it
+    from .common import current_state_obligations
+    obs.extend(o for o in current_state_obligations(prog, "proposal-inputs-current", [prog.cls(c) for c in mcmc.SAMPLERS],
+                                                    "the proposal of a later attempt is built from adaptation state of an earlier one, so it is "
+                                                    "not the symmetric / reversible kernel the accept test assumes")
+               if o.construct.split(".")[-1] in ("take_step", "__advance_walker", "__advance_all", "advance"))
 
     sites = [("MetropolisChain", "take_step"), ("GibbsChain", "take_step"), ("PcaChain", "take_step"),
              ("HamiltonianChain", "take_step"), ("EnsembleSampler", "__advance_walker")]
@@ -429,11 +437,43 @@ def _proposals(prog):
                     problems.append("must return abs(draw)")
             else:
                 # every returned expression depends on the draw only through (draw - lower); form checked in C04.fold-form
-                names = {U(s.targets[0]) for s in fn.body if isinstance(s, ast.Assign) and s.value is d}
-                if len(names) != 1:
-                    problems.append("draw is not bound to a single local")
+                # (decided on the returned TERMS, temporaries and helpers inlined: how the draw is named is immaterial)
+                from ..term import Resolver, pmatch
+                rz = Resolver(fn, prog, pc.module, pc)
+                dtxt = U(d)
+
+                def leaves(t):
+                    if isinstance(t, ast.IfExp):
+                        return leaves(t.body) + leaves(t.orelse)
+                    return [t]
+                los, ws, his = set(), set(), set()
+                undecided = []
+                for r in rz.returns():
+                    for leaf in leaves(rz.term(r.value, r)):
+                        up = pmatch(leaf, "_lo + (_x - _lo) % _w")
+                        dn = pmatch(leaf, "_hi - (_x - _lo) % _w")
+                        b = up or dn
+                        if b is not None and b["_x"] == dtxt:
+                            los.add(b["_lo"])
+                            ws.add(b["_w"])
+                            if dn is not None:
+                                his.add(b["_hi"])
+                            continue
+                        inner = [x for x in ast.walk(leaf) if x is not leaf and (pmatch(x, "_lo + (_x - _lo) % _w") or pmatch(x, "_hi - (_x - _lo) % _w"))]
+                        if inner:
+                            outer = U(leaf)[:40]
+                            problems.append(f"the value folded into the interval is mapped once more before it is returned (`{outer}...`, line "
+                                            f"{r.lineno}): two reflections about different points do not compose to a symmetric proposal")
+                        else:
+                            undecided.append(U(leaf)[:120])
+                if undecided and not problems:
+                    raise AnalysisError(f"proposal-symmetric: returned term `{undecided[0]}` of Parameter.{mname} is not one of the two fold "
+                                        f"arms lo + (draw - lo) % w / hi - (draw - lo) % w - not decided")
+                if not problems:
+                    if len(los) != 1 or len(ws) != 1 or len(his) > 1:
+                        problems.append(f"the fold arms disagree on the interval: lower ends {sorted(los)}, widths {sorted(ws)}, upper ends {sorted(his)}")
         out.append(struct_ob("proposal-symmetric", qual(pc, fn), not problems, "; ".join(problems), rel, fn.lineno,
-                             slots={"map": g}))
+                             slots={"map": g}, tier="F" if g == "fold" else "S"))
     # PCA move: prop - theta0 is homogeneous of degree 1 in one zero-mean draw
     ci = prog.cls("PcaChain")
     c, fn = prog.method("PcaChain", "take_step")
